@@ -71,6 +71,10 @@ func main() {
 		enc.Encode(c)
 	}
 	switch *mode {
+	case "binrun":
+		out.Flush()
+		binRun(flag.Arg(0))
+		return
 	case "list":
 		names := []string{}
 		for k := range suites {
